@@ -252,10 +252,24 @@ def _write(c, d):
     return p
 
 
+_SHARED_DIR = None
+
+
 def _read(c):
     import mokapot
     import mokapot.parsers.pin as pin
-    d = tempfile.mkdtemp(prefix="c10_", dir=os.environ.get("VERIF_TMP", "/tmp"))
+    # every second case is written to ONE path that all such cases of the run share (the file is replaced, as a pipeline
+    # that regenerates its PIN file does): parsing must depend on what the file holds now, not on an earlier parse of that path
+    shared = int(str(lib.stable_hash(c["cols"]))[:8], 16) % 2 == 0
+    if shared:
+        global _SHARED_DIR
+        if _SHARED_DIR is None or not os.path.isdir(_SHARED_DIR):
+            _SHARED_DIR = tempfile.mkdtemp(prefix="c10shared_", dir=os.environ.get("VERIF_TMP", "/tmp"))
+            import atexit
+            atexit.register(shutil.rmtree, _SHARED_DIR, True)
+        d = _SHARED_DIR
+    else:
+        d = tempfile.mkdtemp(prefix="c10_", dir=os.environ.get("VERIF_TMP", "/tmp"))
     old = (pin.CHUNK_SIZE_COLUMNS_FOR_DROP_COLUMNS, pin.CHUNK_SIZE_ROWS_FOR_DROP_COLUMNS)
     try:
         p = _write(c, d)
@@ -282,7 +296,8 @@ def _read(c):
         return out
     finally:
         pin.CHUNK_SIZE_COLUMNS_FOR_DROP_COLUMNS, pin.CHUNK_SIZE_ROWS_FOR_DROP_COLUMNS = old
-        shutil.rmtree(d, ignore_errors=True)
+        if not shared:
+            shutil.rmtree(d, ignore_errors=True)
 
 
 def _norm(v):
